@@ -8,7 +8,7 @@
 From Coq Require Import List Arith Bool.
 From RimeV Require Import CfgC.Str CfgC.Tree CfgC.Spec CfgC.Impl CfgC.ImplFacts CfgC.DepsProofs
   CfgC.TermProofs CfgC.EditProofs CfgC.SpecProofs CfgC.ShareProofs CfgC.ConvProofs CfgC.PlainProofs
-  CfgC.Examples.
+  CfgC.WholeProofs CfgC.Examples.
 Import ListNotations.
 From Coq.Strings Require String.
 Import String.StringSyntax.
@@ -162,6 +162,68 @@ Theorem C14_other_roots_untouched_by_cow_write :
   res_root (fst (set_item st r v)) id = res_root st id.
 Proof. exact cow_write_leaves_other_roots. Qed.
 Print Assumptions C14_other_roots_untouched_by_cow_write.
+
+(** the same for every edit the compiler performs (any patch map, any include
+    with any sibling keys): a copy-on-write reference keeps the container it
+    copied (153d253), so ownership is structural.  [frame L b br st st']:
+    the heap only grows, nodes below L other than b are as before, roots
+    other than br do not move. *)
+Theorem C14_patch_writes_only_its_slot :
+  forall wf m st tgt, owned (length (st_heap st)) tgt ->
+  frame (length (st_heap st)) (base_addr tgt) (base_res tgt) st (snd (fst (patch_literal_h wf m st tgt))).
+Proof. exact patch_leaves_sources_untouched. Qed.
+Print Assumptions C14_patch_writes_only_its_slot.
+
+Theorem C14_include_writes_only_its_slot :
+  forall wf st tgt inc, owned (length (st_heap st)) tgt ->
+  frame (length (st_heap st)) (base_addr tgt) (base_res tgt) st (snd (fst (include_h wf st tgt inc))).
+Proof. exact include_leaves_sources_untouched. Qed.
+Print Assumptions C14_include_writes_only_its_slot.
+
+(** the whole of ResolveDependencies, for every document set, path and fuel,
+    nested compilations of referenced documents included: a node that existed
+    before changes only if it is the container of the target slot of a
+    dependency that was pending *)
+Theorem C14_no_write_through_sharing :
+  forall ds wf fuel path st, targets_are_slots st ->
+  forall a, a < length (st_heap st) -> ~ pending_base st a ->
+  hget (st_heap (snd (resolve_deps ds wf fuel path st))) a = hget (st_heap st) a.
+Proof. exact resolve_writes_only_pending_targets. Qed.
+Print Assumptions C14_no_write_through_sharing.
+
+(** sources stay untouched: a tree holding no container of a pending target
+    slot (a compiled document, an included source) reads back unchanged after
+    any further resolution in the same compiler *)
+Theorem C14_sources_untouched :
+  forall ds wf fuel path st wf' q, targets_are_slots st ->
+  avoids_all wf' (st_heap st) (is_pending_base st) q = true ->
+  readback wf' (st_heap (snd (resolve_deps ds wf fuel path st))) q = readback wf' (st_heap st) q.
+Proof. exact sources_untouched. Qed.
+Print Assumptions C14_sources_untouched.
+
+(** the hypothesis holds of every state the compiler reaches *)
+Theorem C14_targets_are_slots_reachable :
+  targets_are_slots st0 /\
+  (forall ds st file, targets_are_slots st -> targets_are_slots (snd (compile_h ds st file))) /\
+  (forall ds wf fuel path st, targets_are_slots st -> targets_are_slots (snd (resolve_deps ds wf fuel path st))).
+Proof.
+  split; [exact st0_targets_are_slots|]. split; [exact compile_targets_are_slots|exact resolve_targets_are_slots].
+Qed.
+Print Assumptions C14_targets_are_slots_reachable.
+
+(** non-vacuity on the repository's merge fixture: once `starcraft:/` has been
+    included (and compiled) the starcraft resource holds no pending slot, the
+    rest of the document (appends, patches and merges over copies of it) is
+    then resolved, and it reads back unchanged *)
+Theorem C14_sources_untouched_nonvacuous :
+  let st1 := snd (compile_h fixture_docs st0 (bs "config_merge_test")) in
+  let st2 := snd (resolve_deps fixture_docs 60 400 (bs "config_merge_test:/starcraft") st1) in
+  let q := res_root st2 (bs "starcraft") in
+  q <> None /\ pending_bases st2 <> [] /\
+  avoids_all 60 (st_heap st2) (is_pending_base st2) q = true /\
+  fst (readback 60 (st_heap st2) q) = y2item y_starcraft.
+Proof. vm_compute. repeat split; discriminate. Qed.
+Print Assumptions C14_sources_untouched_nonvacuous.
 
 (** memory operations (references, EditNode, MergeTree, patches, includes)
     never touch the dependency graph or the resolve chain *)
